@@ -48,6 +48,147 @@ theorem vTrans_lin_mono {s s' : VSt} (h : VTrans s s') : s.lin <+: s'.lin := by
   | frame hs hl => rw [hl]; exact List.prefix_refl _
   | eff t i op hs hl => rw [hl]; exact List.prefix_append _ _
 
+/-- identifying a location as a child's cell changes neither the threads, nor the vector's content, nor the
+    commit log (only `binding`) -/
+theorem bindChild_ok {s s1 : VSt} {loc : String} {c : Nat} (h : bindChild s loc c = .ok s1) :
+    s1.ths = s.ths ∧ s1.spec = s.spec ∧ s1.lin = s.lin := by
+  unfold bindChild at h
+  split at h
+  · rw [guard_ok] at h; obtain ⟨_, h⟩ := h
+    cases h; exact ⟨rfl, rfl, rfl⟩
+  · rw [guard_ok] at h; obtain ⟨_, h⟩ := h
+    cases h; exact ⟨rfl, rfl, rfl⟩
+
+/-- the effect of one specification operation depends on the content and the log only -/
+theorem vEff_congr {s s1 : VSt} (hs : s1.spec = s.spec) (hl : s1.lin = s.lin) (t i : Nat) (op : VOp) :
+    (vEff s1 t i op).1.spec = (vEff s t i op).1.spec ∧ (vEff s1 t i op).1.lin = (vEff s t i op).1.lin ∧
+    (vEff s1 t i op).1.ths = s1.ths := by
+  simp only [vEff, hs, hl, and_self]
+
+/-- the `fetch_add` form of a handle update commits exactly `.inc c` -/
+theorem vIncAdd_trans {s s' : VSt} {e : Ev} {th : Th VPc} {c : Nat} (h : vIncAdd s e th c = .ok s') :
+    VTrans s s' := by
+  unfold vIncAdd at h
+  rw [guard_ok] at h; obtain ⟨_, h⟩ := h
+  rw [guard_ok] at h; obtain ⟨_, h⟩ := h
+  split at h
+  · cases h
+  · next s1 hb =>
+    obtain ⟨_, hs, hl⟩ := bindChild_ok hb
+    cases h
+    exact .eff e.tid th.idx (.inc c) (vEff_congr hs hl _ _ _).1 (vEff_congr hs hl _ _ _).2.1
+
+/-- the load of a handle update written as a loop is a stutter -/
+theorem vIncLoad_trans {s s' : VSt} {e : Ev} {th : Th VPc} {c : Nat} (h : vIncLoad s e th c = .ok s') :
+    VTrans s s' := by
+  unfold vIncLoad at h
+  rw [guard_ok] at h; obtain ⟨_, h⟩ := h
+  rw [guard_ok] at h; obtain ⟨_, h⟩ := h
+  split at h
+  · cases h
+  · next s1 hb =>
+    obtain ⟨_, hs, hl⟩ := bindChild_ok hb
+    cases h
+    exact .frame hs hl
+
+/-- the compare-exchange of a handle update written as a loop commits exactly `.inc c` (success) or is a
+    stutter (failure) -/
+theorem vIncCas_trans {s s' : VSt} {e : Ev} {th : Th VPc} {c : Nat} {cur : UInt64}
+    (h : vIncCas s e th c cur = .ok s') : VTrans s s' := by
+  unfold vIncCas at h
+  rw [guard_ok] at h; obtain ⟨_, h⟩ := h
+  split at h
+  · cases h
+  · next s1 hb =>
+    obtain ⟨_, hs, hl⟩ := bindChild_ok hb
+    split at h
+    · rw [guard_ok] at h; obtain ⟨_, h⟩ := h
+      cases h
+      exact .eff e.tid th.idx (.inc c) (vEff_congr hs hl _ _ _).1 (vEff_congr hs hl _ _ _).2.1
+    · rw [guard_ok] at h; obtain ⟨_, h⟩ := h
+      cases h
+      exact .frame hs hl
+
+/-- exactly what an accepted `fetch_add` of a handle update is and does -/
+theorem vIncAdd_spec {s s' : VSt} {e : Ev} {th : Th VPc} {c : Nat} (h : vIncAdd s e th c = .ok s') :
+    e.k = "A" ∧ ordGe e.ord "Relaxed" = true ∧ e.a = 1 ∧ e.res = s.spec.vals.getD c 0 ∧
+    (∃ s1, bindChild s e.loc c = .ok s1) ∧
+    s'.spec = (s.spec.apply (.inc c)).1 ∧ s'.lin = s.lin ++ [⟨e.tid, th.idx, .inc c, .unit⟩] ∧
+    s'.ths = s.ths.set e.tid { th with pc := none, retv := some "" } := by
+  unfold vIncAdd at h
+  rw [guard_ok] at h; obtain ⟨hg, h⟩ := h
+  rw [guard_ok] at h; obtain ⟨hv, h⟩ := h
+  simp only [Bool.and_eq_true, beq_iff_eq] at hg hv
+  split at h
+  · cases h
+  · next s1 hb =>
+    obtain ⟨hths, hs, hl⟩ := bindChild_ok hb
+    cases h
+    refine ⟨hg.1.1, hg.1.2, hg.2, hv, ⟨s1, hb⟩, ?_, ?_, ?_⟩
+    · show (s1.spec.apply (.inc c)).1 = _
+      rw [hs]
+    · show s1.lin ++ _ = _
+      rw [hl]; rfl
+    · show s1.ths.set _ _ = _
+      rw [hths]
+
+/-- exactly what an accepted load of a handle update (written as a loop) is and does -/
+theorem vIncLoad_spec {s s' : VSt} {e : Ev} {th : Th VPc} {c : Nat} (h : vIncLoad s e th c = .ok s') :
+    e.k = "L" ∧ ordGe e.ord "Relaxed" = true ∧ e.res = s.spec.vals.getD c 0 ∧
+    (∃ s1, bindChild s e.loc c = .ok s1) ∧
+    s'.spec = s.spec ∧ s'.lin = s.lin ∧
+    s'.ths = s.ths.set e.tid { th with pc := some (.incCas c e.res) } := by
+  unfold vIncLoad at h
+  rw [guard_ok] at h; obtain ⟨hg, h⟩ := h
+  rw [guard_ok] at h; obtain ⟨hv, h⟩ := h
+  simp only [Bool.and_eq_true, beq_iff_eq] at hg hv
+  split at h
+  · cases h
+  · next s1 hb =>
+    obtain ⟨hths, hs, hl⟩ := bindChild_ok hb
+    cases h
+    refine ⟨hg.1, hg.2, hv, ⟨s1, hb⟩, hs, hl, ?_⟩
+    show s1.ths.set _ _ = _
+    rw [hths]
+
+/-- exactly what an accepted compare-exchange of a handle update (written as a loop) is and does -/
+theorem vIncCas_spec {s s' : VSt} {e : Ev} {th : Th VPc} {c : Nat} {cur : UInt64}
+    (h : vIncCas s e th c cur = .ok s') :
+    e.k = "C" ∧ ordGe e.ord "Relaxed" = true ∧ e.a = cur ∧ e.b = cur + 1 ∧
+    (∃ s1, bindChild s e.loc c = .ok s1) ∧
+    ((e.ok = true ∧ s.spec.vals.getD c 0 = cur ∧ e.res = cur ∧
+        s'.spec = (s.spec.apply (.inc c)).1 ∧ s'.lin = s.lin ++ [⟨e.tid, th.idx, .inc c, .unit⟩] ∧
+        s'.ths = s.ths.set e.tid { th with pc := none, retv := some "" }) ∨
+     (e.ok = false ∧ e.res = s.spec.vals.getD c 0 ∧ s'.spec = s.spec ∧ s'.lin = s.lin ∧
+        s'.ths = s.ths.set e.tid { th with pc := some (.incRetry c e.res) })) := by
+  unfold vIncCas at h
+  rw [guard_ok] at h; obtain ⟨hg, h⟩ := h
+  simp only [Bool.and_eq_true, beq_iff_eq] at hg
+  split at h
+  · cases h
+  · next s1 hb =>
+    obtain ⟨hths, hs, hl⟩ := bindChild_ok hb
+    refine ⟨hg.1.1.1, hg.1.1.2, hg.1.2, hg.2, ⟨s1, hb⟩, ?_⟩
+    split at h
+    · next hok =>
+      rw [guard_ok] at h; obtain ⟨hv, h⟩ := h
+      simp only [Bool.and_eq_true, beq_iff_eq] at hv
+      cases h
+      refine .inl ⟨hok, hv.1, hv.2, ?_, ?_, ?_⟩
+      · show (s1.spec.apply (.inc c)).1 = _
+        rw [hs]
+      · show s1.lin ++ _ = _
+        rw [hl]; rfl
+      · show s1.ths.set _ _ = _
+        rw [hths]
+    · next hok =>
+      rw [guard_ok] at h; obtain ⟨hv, h⟩ := h
+      simp only [beq_iff_eq] at hv
+      cases h
+      refine .inr ⟨by simpa using hok, hv, hs, hl, ?_⟩
+      show s1.ths.set _ _ = _
+      rw [hths]
+
 theorem vStep_trans {s s' : VSt} {e : Ev} (h : vStep s e = .ok s') : VTrans s s' := by
   unfold vStep at h
   split at h
@@ -104,13 +245,15 @@ theorem vStep_trans {s s' : VSt} {e : Ev} (h : vStep s e = .ok s') : VTrans s s'
         rw [guard_ok] at h; obtain ⟨_, h⟩ := h
         cases h; exact .frame rfl rfl
       · -- incChild
-        rw [guard_ok] at h; obtain ⟨_, h⟩ := h
-        rw [guard_ok] at h; obtain ⟨_, h⟩ := h
         split at h
-        · rw [guard_ok] at h; obtain ⟨_, h⟩ := h
-          cases h; exact .eff e.tid _ _ rfl rfl
-        · rw [guard_ok] at h; obtain ⟨_, h⟩ := h
-          cases h; exact .eff e.tid _ _ rfl rfl
+        · exact vIncLoad_trans h
+        · exact vIncAdd_trans h
+      · -- incCas
+        exact vIncCas_trans h
+      · -- incRetry
+        split at h
+        · exact vIncLoad_trans h
+        · exact vIncCas_trans h
       · -- collecting
         split at h
         · rw [guard_ok] at h; obtain ⟨_, h⟩ := h
